@@ -1,0 +1,175 @@
+//! Verification hooks. Compiled only with `--cfg cached_verif`; nothing in here changes what the cache does.
+//!
+//! * `point(site, arg)` is a schedule point: with a [`Sink`] installed it may park the calling thread until a
+//!   controller lets it continue; without a sink it returns at once.
+//! * `event(name, fields)` reports the arguments/results of the step that is being executed.
+//! * background threads adopt the sink of the thread that created the cache (`current()` / `adopt()`), and
+//!   report when they leave their loop (`Sink::exit`).
+//! * `Snapshot` is the projection of a `CacheD` instance onto the state of the TLA+ specification in `/verif/spec`.
+use std::cell::RefCell;
+use std::sync::Arc;
+
+use crate::cache::lfu::frequency_counter::verif_access as row_access;
+use crate::cache::lfu::tiny_lfu::TinyLFU;
+
+pub trait Sink: Send + Sync {
+    fn point(&self, role: &str, site: &'static str, arg: i64);
+    fn event(&self, role: &str, name: &'static str, fields: &[i64]);
+    fn exit(&self, role: &str, panicked: bool);
+}
+
+pub type SinkRef = Arc<dyn Sink>;
+
+thread_local! {
+    static CURRENT: RefCell<Option<(SinkRef, String)>> = RefCell::new(None);
+}
+
+/// Installs `sink` for the calling thread under the name `role`.
+pub fn install(sink: SinkRef, role: &str) {
+    CURRENT.with(|current| *current.borrow_mut() = Some((sink, role.to_string())));
+}
+
+pub fn uninstall() {
+    CURRENT.with(|current| *current.borrow_mut() = None);
+}
+
+/// The sink of the calling thread, to be handed to a thread it spawns.
+pub fn current() -> Option<SinkRef> {
+    CURRENT.with(|current| current.borrow().as_ref().map(|pair| pair.0.clone()))
+}
+
+/// Reports the end of a background thread (normal or by unwinding) when dropped.
+pub struct ThreadGuard(Option<(SinkRef, String)>);
+
+impl Drop for ThreadGuard {
+    fn drop(&mut self) {
+        if let Some((sink, role)) = self.0.take() {
+            sink.exit(&role, std::thread::panicking());
+        }
+    }
+}
+
+/// First statement of a background thread: take over the creator's sink.
+pub fn adopt(sink: Option<SinkRef>, role: &str) -> ThreadGuard {
+    match sink {
+        Some(sink) => {
+            install(sink.clone(), role);
+            ThreadGuard(Some((sink, role.to_string())))
+        }
+        None => ThreadGuard(None),
+    }
+}
+
+fn installed() -> Option<(SinkRef, String)> {
+    CURRENT.try_with(|current| current.borrow().as_ref().map(|pair| (pair.0.clone(), pair.1.clone()))).unwrap_or(None)
+}
+
+#[inline]
+pub fn point(site: &'static str, arg: i64) {
+    if let Some((sink, role)) = installed() {
+        sink.point(&role, site, arg);
+    }
+}
+
+#[inline]
+pub fn event(name: &'static str, fields: &[i64]) {
+    if let Some((sink, role)) = installed() {
+        sink.event(&role, name, fields);
+    }
+}
+
+pub fn secs(time: &std::time::SystemTime) -> i64 {
+    time.duration_since(std::time::UNIX_EPOCH).map(|duration| duration.as_secs() as i64).unwrap_or(-1)
+}
+
+pub fn nanos(time: &std::time::SystemTime) -> i64 {
+    time.duration_since(std::time::UNIX_EPOCH).map(|duration| duration.subsec_nanos() as i64).unwrap_or(-1)
+}
+
+#[derive(Debug, Clone, PartialEq, Eq)]
+pub struct StoreEntry {
+    pub key: i64,
+    pub value: i64,
+    pub id: u64,
+    /// seconds / nanoseconds since the epoch of `expire_after`, if any
+    pub expiry: Option<(i64, i64)>,
+    pub soft_deleted: bool,
+}
+
+#[derive(Debug, Clone, PartialEq, Eq)]
+pub struct WeightEntry {
+    pub id: u64,
+    pub key: i64,
+    pub hash: u64,
+    pub weight: i64,
+}
+
+/// Projection of the cache state. `None` means "the lock protecting this part was held by somebody".
+#[derive(Debug, Clone, Default)]
+pub struct Snapshot {
+    pub store: Vec<StoreEntry>,
+    pub weights: Vec<WeightEntry>,
+    pub weight_used: Option<i64>,
+    pub max_weight: i64,
+    pub ttl_shards: Vec<Option<Vec<(u64, i64, i64)>>>,
+    pub queue_len: usize,
+    pub access_channel_len: usize,
+    pub buffer_lens: Vec<Option<usize>>,
+    pub lfu_increments: Option<u64>,
+    pub stats: Vec<u64>,
+    pub hit_ratio: f64,
+    pub shutting_down: bool,
+    pub sweeper_keep_running: bool,
+    pub consumer_keep_running: bool,
+}
+
+/// Direct access to one packed-counter row (`frequency_counter::Row`) for the byte-level checks.
+pub fn row_increment_at(bytes: &mut Vec<u8>, position: u64) { row_access::increment_at(bytes, position) }
+
+pub fn row_get_at(bytes: &[u8], position: u64) -> u8 { row_access::get_at(bytes, position) }
+
+pub fn row_half_counters(bytes: &mut Vec<u8>) { row_access::half_counters(bytes) }
+
+pub fn next_power_2(counters: u64) -> u64 { row_access::next_power_2(counters) }
+
+/// The crate-private `TinyLFU` (count-min sketch + doorkeeper + ageing) behind a public face.
+pub struct LfuProbe {
+    inner: TinyLFU,
+}
+
+impl LfuProbe {
+    pub fn new(counters: u64) -> Self { LfuProbe { inner: TinyLFU::new(counters) } }
+
+    pub fn increment_access(&mut self, key_hashes: Vec<u64>) { self.inner.increment_access(key_hashes) }
+
+    pub fn estimate(&self, key_hash: u64) -> u8 { self.inner.estimate(key_hash) }
+
+    pub fn sketch_estimate(&self, key_hash: u64) -> u8 { self.inner.verif_sketch_estimate(key_hash) }
+
+    pub fn doorkeeper_has(&self, key_hash: u64) -> bool { self.inner.verif_doorkeeper_has(key_hash) }
+
+    pub fn total_increments(&self) -> u64 { self.inner.verif_total_increments() }
+
+    pub fn reset_counters_at(&self) -> u64 { self.inner.verif_reset_counters_at() }
+
+    pub fn total_counters(&self) -> u64 { self.inner.verif_total_counters() }
+
+    pub fn positions(&self, key_hash: u64) -> [u64; 4] { self.inner.verif_positions(key_hash) }
+
+    pub fn rows(&self) -> Vec<Vec<u8>> { self.inner.verif_rows() }
+
+    pub fn clear(&mut self) { self.inner.clear() }
+}
+
+pub fn status_code(status: &crate::cache::command::CommandStatus) -> i64 {
+    use crate::cache::command::{CommandStatus, RejectionReason};
+    match status {
+        CommandStatus::Pending => 0,
+        CommandStatus::Accepted => 1,
+        CommandStatus::ShuttingDown => 2,
+        CommandStatus::Rejected(RejectionReason::EnoughSpaceIsNotAvailableAndKeyFailedToEvictOthers) => 10,
+        CommandStatus::Rejected(RejectionReason::KeyWeightIsGreaterThanCacheWeight) => 11,
+        CommandStatus::Rejected(RejectionReason::KeyDoesNotExist) => 12,
+        CommandStatus::Rejected(RejectionReason::KeyAlreadyExists) => 13,
+    }
+}
